@@ -55,6 +55,9 @@ type WScn struct {
 	Beats        []time.Duration // other traffic at these times (heartbeat / location report alternating)
 	Burst        int             // answer the held commands in ONE socket write once this many command frames arrived
 	BurstDup     int             // ... each response this many times
+	Reissues     []time.Duration // a 0x8003 (re-request) frame from the terminal at these times
+	ReissueBurst int             // this many 0x8003 frames in one write at the start (reissuePackChan holds 3)
+	Stall        bool            // first packet of a 2-packet transfer at the start, a heartbeat 5.1 s later: generated re-request
 	Flood        int             // this many heartbeats in ONE socket write at the start of the recording (more than msgChan holds)
 	CloseReplies int             // close after this many 0x8001 replies were received (0 = no)
 	CloseFrames  int             // close after this many command frames were received and handled (0 = no)
@@ -181,26 +184,30 @@ func SplitBody(body []byte, k int) [][]byte {
 const farFuture = int64(1) << 40
 
 type wrun struct {
-	s        *Srv
-	sc       *WScn
-	t        *Term
-	t0       time.Time
-	mu       sync.Mutex // guards everything below and serialises the terminal's writes
-	T, F     []string
-	cmdN     int
-	closed   bool
-	frames   []PFrame           // every platform frame received during the recording
-	sentResp map[uint16][]int64 // echo -> times a parsable response echoing it was written
-	beatTags []uint16
-	beatSent map[uint16]int64 // tag -> time the heartbeat had been written
-	replyAt  map[uint16]int64 // tag -> time its 0x8001 was received
-	replied  []uint16         // tags of the 0x8001 replies received, in order
-	heldCmd  []PFrame
-	nreplies int
-	todo     int // scripted terminal actions not yet performed (first heartbeat, beats, delayed responses)
-	syncTag  int
-	syncCh   chan struct{}
-	viol     []WViol
+	s         *Srv
+	sc        *WScn
+	t         *Term
+	t0        time.Time
+	mu        sync.Mutex // guards everything below and serialises the terminal's writes
+	T, F      []string
+	cmdN      int
+	closed    bool
+	frames    []PFrame           // every platform frame received during the recording
+	sentResp  map[uint16][]int64 // echo -> times a parsable response echoing it was written
+	beatTags  []uint16
+	beatSent  map[uint16]int64 // tag -> time the heartbeat had been written
+	replyAt   map[uint16]int64 // tag -> time its 0x8001 was received
+	replied   []uint16         // tags of the 0x8001 replies received, in order
+	heldCmd   []PFrame
+	nreplies  int
+	nreisSent int // 0x8003 frames the server owes us (sent by the terminal or generated for the stalled transfer)
+	nreisSeen int
+	srvClosed bool  // the server closed the connection although the scenario never did
+	closedAt  int64 // time of the scenario's close
+	todo      int   // scripted terminal actions not yet performed (first heartbeat, beats, delayed responses)
+	syncTag   int
+	syncCh    chan struct{}
+	viol      []WViol
 }
 
 func (r *wrun) us() int64 { return time.Since(r.t0).Microseconds() }
@@ -233,6 +240,16 @@ func (r *wrun) sendBeat(loc bool) {
 	if !r.closed {
 		r.beatTags = append(r.beatTags, s)
 		r.beatSent[s] = r.us()
+	}
+}
+
+func (r *wrun) sendReissue() {
+	if r.closed {
+		return
+	}
+	r.sendMsg(0x8003, []byte{0, 1, 1, 0, 2}, func(uint16) string { return "q" })
+	if !r.closed {
+		r.nreisSent++
 	}
 }
 
@@ -299,6 +316,7 @@ func (r *wrun) doClose() {
 	}
 	hi := r.us()
 	r.closed = true
+	r.closedAt = hi
 	r.T = append(r.T, fmt.Sprintf("T/x/%d/%d", lo, hi))
 }
 
@@ -337,7 +355,22 @@ func (r *wrun) handle(f PFrame) {
 		}
 		return
 	}
+	if f.ID == 0x8003 { // subPackReplyEvent: the re-request as a platform frame
+		r.F = append(r.F, fmt.Sprintf("F/Q%d/0/%d", f.Serial, t))
+		r.nreisSeen++
+		return
+	}
 	r.F = append(r.F, fmt.Sprintf("F/W%d.%d/0/%d", f.Serial, f.ID, t))
+	own := false
+	for _, c := range r.sc.Calls {
+		if c.Cmd == f.ID && string(c.Body) == string(f.Body) {
+			own = true
+		}
+	}
+	if !own {
+		r.violate("foreign-command", "the terminal received a command that none of the calls addressed to it had sent",
+			fmt.Sprintf("frame %04x serial %d body %x", f.ID, f.Serial, f.Body), "only the commands of calls with this terminal's key")
+	}
 	n := r.cmdN
 	r.cmdN++
 	act := WAct{Kind: "now"}
@@ -464,6 +497,13 @@ func RunW(s *Srv, sc *WScn) *WHist {
 	if sc.Flood > 0 {
 		r.todo++
 	}
+	r.todo += len(sc.Reissues)
+	if sc.ReissueBurst > 0 {
+		r.todo++
+	}
+	if sc.Stall {
+		r.todo++
+	}
 	r.t0 = time.Now()
 	stop := make(chan struct{})
 	termDone := make(chan struct{})
@@ -492,6 +532,47 @@ func RunW(s *Srv, sc *WScn) *WHist {
 			r.sendBeat(false)
 			r.todo--
 			r.mu.Unlock()
+		}
+		for _, d := range sc.Reissues {
+			time.AfterFunc(d, func() { r.mu.Lock(); r.sendReissue(); r.todo--; r.mu.Unlock() })
+		}
+		if sc.ReissueBurst > 0 {
+			r.mu.Lock()
+			var buf []byte
+			for i := 0; i < sc.ReissueBurst; i++ {
+				buf = append(buf, TFrame(0x8003, t.Phone, t.NextSerial(), []byte{0, 1, 1, 0, 2})...)
+			}
+			lo := r.us()
+			_, err := t.Conn.Write(buf)
+			hi := r.us()
+			if err == nil {
+				for i := 0; i < sc.ReissueBurst; i++ {
+					r.T = append(r.T, fmt.Sprintf("T/s:q/%d/%d", lo, hi))
+				}
+				r.nreisSent += sc.ReissueBurst
+			}
+			r.todo--
+			r.mu.Unlock()
+		}
+		if sc.Stall { // packet 1 of 2 of a multimedia upload, then silence for more than 5 s, then a heartbeat:
+			// the reassembler generates the 0x8003 re-request with the messages of that Read (after the heartbeat)
+			r.mu.Lock()
+			ser := t.NextSerial()
+			lo := r.us()
+			t.Conn.Write(TSubFrame(0x0801, t.Phone, ser, 2, 1, make([]byte, 40)))
+			r.T = append(r.T, fmt.Sprintf("T/s:f/%d/%d", lo, r.us()))
+			r.mu.Unlock()
+			time.AfterFunc(5100*time.Millisecond, func() {
+				r.mu.Lock()
+				defer r.mu.Unlock()
+				if !r.closed {
+					lo := r.us()
+					r.sendBeat(false)
+					r.T = append(r.T, fmt.Sprintf("T/s:q/%d/%d", lo, r.us()))
+					r.nreisSent++
+				}
+				r.todo--
+			})
 		}
 		if sc.Flood > 0 { // one segment with far more reply-bearing frames than msgChan holds
 			r.mu.Lock()
@@ -605,6 +686,13 @@ func RunW(s *Srv, sc *WScn) *WHist {
 			r.violate("unanswered-traffic", "the final heartbeat was not answered within 3 s on a live connection", "no 0x8001", "0x8001")
 			r.mu.Unlock()
 		}
+	}
+	select {
+	case <-termDone:
+		r.mu.Lock()
+		r.srvClosed = !r.closed
+		r.mu.Unlock()
+	default:
 	}
 	close(stop)
 	<-termDone
@@ -724,6 +812,21 @@ func (r *wrun) check(h *WHist) {
 		if lim == 0 {
 			lim = 3 * time.Second
 		}
+		// "within its timeout plus scheduling slack", per call; a call without timeout is released by the close
+		if lim > 0 && c.Res.Dur > lim+sc.Slack {
+			r.violate("late-return", "a call returned later than its own timeout plus slack",
+				fmt.Sprintf("caller %d cmd %04x timeout %v returned %s after %v", i, c.Cmd, lim, c.Res.Kind, c.Res.Dur), fmt.Sprintf("within %v", lim+sc.Slack))
+		}
+		if lim < 0 && r.closed && c.Ret > r.closedAt+sc.Slack.Microseconds() {
+			r.violate("late-return", "a call without timeout returned later than the disconnect plus slack",
+				fmt.Sprintf("caller %d cmd %04x returned %s at %d us, terminal closed at %d us", i, c.Cmd, c.Res.Kind, c.Ret, r.closedAt), fmt.Sprintf("within %v of the close", sc.Slack))
+		}
+		// written at least once: on a connection that stayed up, a call that was answered or timed out had its
+		// command on the wire (the terminal saw the frame with its command id and body)
+		if (c.Res.Kind == "resp" || c.Res.Kind == "timeout") && !r.closed && !r.srvClosed && seen[key] == 0 {
+			r.violate("never-written", "a call returned a response or a timeout but its command never reached the terminal",
+				fmt.Sprintf("caller %d cmd %04x body %x: %s", i, c.Cmd, c.Body, c.Res.Kind), "exactly one frame per command")
+		}
 		switch c.Res.Kind {
 		case "resp":
 			f, ok := bySerial[c.Res.PSeq]
@@ -765,7 +868,18 @@ func (r *wrun) check(h *WHist) {
 				r.violate("early-timeout", "a call timed out before its configured duration elapsed",
 					fmt.Sprintf("caller %d after %v", i, c.Res.Dur), fmt.Sprintf("not before %v", lim))
 			}
-		case "wfail", "noexist":
+		case "noexist":
+			// ErrNotExistKey is for a key without a live connection: this terminal had joined before the
+			// recording began and neither side closed the connection during the scenario
+			if sc.PreJoin && !r.closed && !r.srvClosed {
+				r.violate("noexist-on-live-connection", "a caller got ErrNotExistKey although its terminal was online for the whole call",
+					fmt.Sprintf("caller %d cmd %04x after %v", i, c.Cmd, c.Res.Dur), "the response or a timeout")
+			}
+		case "wfail":
+			if !r.closed && !r.srvClosed {
+				r.violate("wfail-on-live-connection", "a caller got ErrWriteDataFail although the connection was never closed",
+					fmt.Sprintf("caller %d cmd %04x after %v", i, c.Cmd, c.Res.Dur), "the response or a timeout")
+			}
 		default:
 			r.violate("unknown-result", "SendActiveMessage returned a result that is neither a response nor one of the documented errors",
 				fmt.Sprintf("caller %d: %s %s", i, c.Res.Kind, c.Res.Raw), "response | ErrWriteDataOverTime | ErrWriteDataFail | ErrNotExistKey")
@@ -780,6 +894,10 @@ func (r *wrun) check(h *WHist) {
 			break
 		}
 	}
+	if !r.closed && !r.srvClosed && r.nreisSeen != r.nreisSent {
+		r.violate("reissue-unanswered", "a 0x8003 re-request handed to reissuePackChan was not written back on a live connection",
+			fmt.Sprintf("owed %d, seen %d", r.nreisSent, r.nreisSeen), "one 0x8003 platform frame each")
+	}
 	if !r.closed && len(r.replied) != len(tags) {
 		r.violate("unanswered-traffic", "a heartbeat / location report sent between commands was not answered on a live connection",
 			fmt.Sprintf("sent %v replied %v", tags, r.replied), "one 0x8001 per message, in order")
@@ -788,7 +906,7 @@ func (r *wrun) check(h *WHist) {
 
 // ---------------------------------------------------------------- scenario generators
 
-var WKinds = []string{"frag", "default0", "flood-close", "burst", "order", "late", "dup", "unknown", "bad", "never", "mixed", "attr", "notmo", "prejoin", "wrap",
+var WKinds = []string{"reissue", "reissue-close", "stall", "stall-close", "frag", "default0", "flood-close", "burst", "order", "late", "dup", "unknown", "bad", "never", "mixed", "attr", "notmo", "prejoin", "wrap",
 	"close-idle", "close-queued", "close-outstanding", "close-afterresp", "close-timer", "close-early", "rst-outstanding"}
 
 func ms(n int) time.Duration { return time.Duration(n) * time.Millisecond }
@@ -808,7 +926,7 @@ func GenW(kind string, seed int64) *WScn {
 		cmd := WCmds[rng.Intn(len(WCmds))]
 		return &WCall{Cmd: cmd, Body: []byte{0xC0 | byte(i), byte(seed), byte(rng.Intn(256))}, Timeout: to, Start: ms(rng.Intn(8))}
 	}
-	tos := []int{60, 90, 150, 250}
+	tos := []int{5, 20, 60, 90, 150, 250}
 	to := func() time.Duration { return ms(tos[rng.Intn(len(tos))]) }
 	beats := func(n int, within int) {
 		for i := 0; i < n; i++ {
@@ -847,6 +965,38 @@ func GenW(kind string, seed int64) *WScn {
 			sc.Acts[0] = WAct{Kind: "delay", Delay: ms(rng.Intn(200))}
 		}
 		beats(1, 50)
+		if rng.Intn(3) == 0 { // ... or released by a disconnect while the 3 s timer is still asleep
+			sc.CloseTime = ms(100 + rng.Intn(400))
+			sc.RST = rng.Intn(2) == 0
+		}
+	case "reissue", "reissue-close": // 0x8003 frames from the terminal (reissuePackChan), commands and heartbeats around them
+		sc.ReissueBurst = rng.Intn(9) // up to 8 in one write: more than the channel holds
+		for i, n := 0, rng.Intn(4); i < n; i++ {
+			sc.Reissues = append(sc.Reissues, time.Duration(rng.Intn(20000))*time.Microsecond)
+		}
+		k = rng.Intn(3)
+		for i := 0; i < k; i++ {
+			sc.Calls = append(sc.Calls, mk(i, ms(200)))
+			sc.Acts = append(sc.Acts, WAct{Kind: []string{"now", "never", "delay"}[rng.Intn(3)], Delay: ms(rng.Intn(20))})
+		}
+		beats(rng.Intn(3), 20)
+		if kind == "reissue-close" {
+			sc.CloseTime = time.Duration(50+rng.Intn(8000)) * time.Microsecond
+			sc.RST = rng.Intn(2) == 0
+		}
+	case "stall", "stall-close": // a transfer that stalls for 5 s: the re-request the reassembler generates goes through reissuePackChan
+		sc.Stall = true
+		k = rng.Intn(2)
+		for i := 0; i < k; i++ {
+			c := mk(i, ms(200))
+			c.Start = ms(5090 + rng.Intn(20))
+			sc.Calls = append(sc.Calls, c)
+			sc.Acts = append(sc.Acts, WAct{Kind: "now"})
+		}
+		if kind == "stall-close" {
+			sc.CloseTime = 5100*time.Millisecond + time.Duration(rng.Intn(4000))*time.Microsecond
+			sc.RST = rng.Intn(2) == 0
+		}
 	case "flood-close": // 30..400 heartbeats in one segment (msgChan holds 10), then close / RST while the reader still pushes
 		sc.Flood = []int{30, 60, 120, 250, 400}[rng.Intn(5)]
 		sc.RST = rng.Intn(3) != 0
